@@ -99,6 +99,14 @@ def cases(draw, tier="quick"):
     if ups:
         strings.append(draw(st.sampled_from(ups)) + "1")
     strings += ps[:3]
+    if draw(st.integers(0, 2)) == 0:
+        # text that means something to a formatting layer (percent-encoded URIs, printf / str.format / logging templates): with
+        # and without the delimiter, known and unknown prefix - failure must still be reported the documented way
+        tmpl = draw(st.sampled_from(["a%20b", "50%", "%s", "%d%d", "caf%C3%A9", "%(x)s", "{0}", "{x}", "{", "%", "\\N{x}", "$x"]))
+        strings.append(tmpl)
+        strings.append((draw(st.sampled_from(ps)) if ps else "zz") + d + tmpl)
+        if ups:
+            strings.append(draw(st.sampled_from(ups)) + tmpl)
     if draw(st.integers(0, 3)) == 0:
         # very long inputs (query strings, data URIs, pasted text): any depth- or size-limited helper shows here
         long_tail = draw(st.sampled_from(["x" * 1500, "9" * 3000, "a/" * 1200, "é" * 2048]))
